@@ -1123,6 +1123,22 @@ pub fn handle(st: &mut State, line: &str) -> String {
                 }
                 Ok("OK".into())
             }
+            // GBIGN <n> <size>: as GBIG, the big AVPs added BY NAME ("T-oct" of the generated dictionary): how many of the calls
+            // succeeded, and what the message holds afterwards
+            "GBIGN" => {
+                let dict = st.dicts.get("g").ok_or_else(|| "dict g missing".to_string())?.clone();
+                let n = t.usize_dec()?;
+                let size = t.u64()? as usize;
+                let mut m = DiameterMessage::new(CommandCode::CreditControl, ApplicationId::CreditControl, 0x80, 1, 2, Arc::clone(&dict));
+                let mut ok = 0usize;
+                for _ in 0..n {
+                    if m.add_avp_by_name("T-oct", OctetString::new(vec![0u8; size]).into()).is_ok() {
+                        ok += 1;
+                    }
+                }
+                let unknown_failed = m.add_avp_by_name("No-Such-Name", Unsigned32::new(1).into()).is_err();
+                Ok(format!("GBIGN ok={} unknown_failed={} count={} length={}", ok, unknown_failed as u8, m.get_avps().len(), m.get_length()))
+            }
             "XM" => run_decode_multi(st, &mut t),
             // XP <dict> <k> <frame>: decode_from on a reader that already stands k octets PAST the end of what it holds
             "XP" => {
